@@ -62,6 +62,22 @@ def oracle (codec opts : String) (b : Bytes) (enc : Res Bytes) (dec : Option (Re
     if codec == "pct" || codec == "pctdefault" then Utf8.isValid b
     else if codec == "charset" then Utf8.isValid b && flags.getD 1 "0" == "1"
     else if codec == "puny" then Utf8.isValid b && flags.getD 0 "0" == "1"
+    else if codec == "gzip" || codec == "zlib" then
+      -- levels flate2 accepts (level 10 panics inside flate2, > 10 is rejected: C03/C04)
+      opts == "-" ||
+        (match parseInt opts with
+         | some l => (match Gzip.level? l with | some k => decide (k ≤ 9) | none => false)
+         | none => false)
+    else if codec == "lz4" then
+      -- block mode without size prefix needs `buf_size` ≥ length (default 1_000_000)
+      match opts.splitOn "/" with
+      | ["true", _] => true
+      | ["false", "-"] => decide (b.length ≤ 1000000)
+      | ["false", n] =>
+        (match parseInt n with
+         | some n => decide (0 ≤ n ∧ n ≤ 4294967295 ∧ (b.length : Int) ≤ n)
+         | none => false)
+      | _ => false
     else true
   if !pre then "holds"
   else if holds dec then
